@@ -130,6 +130,11 @@ Step ==
                                    ELSE PrintT(<<"HARNESS", e.id, "endrun outside a run">>) /\ UNCHANGED <<table, config, ys, order, accL, accD, pc, matched, bacc>>
             [] e.ev = "collect" -> IF pc \in {"collect", "done"} \/ e.direct THEN CollectE(e)
                                    ELSE PrintT(<<"HARNESS", e.id, "collect before endrun">>) /\ UNCHANGED <<table, config, ys, order, accL, accD, pc, matched, bacc>>
+            \* one collection over the results of two runs whose streams have different numbers of rows: every key equals
+            \* what its own run gives alone (accumulators are per key; the solo collections are judged above)
+            [] e.ev = "joint"   -> /\ Clause(e, "c06_total", e.exc = "")
+                                   /\ Clause(e, "c06_one_per_key", e.exc = "" => (e.same1 /\ e.same2))
+                                   /\ UNCHANGED <<table, config, ys, order, accL, accD, pc, matched, bacc>>
        /\ IF l = Len(TraceLog) THEN PrintT(<<"DONE", l>>) ELSE TRUE
     /\ l' = l + 1
 =============================================================================
